@@ -112,6 +112,19 @@ CHECKS = {
              'histories; unit norm / double-couple eigenvalues of proposals and jump behaviour through whole iterations are judged on the '
              'implementation (proved for the conversion itself in C12).',
         design='6 C06'),
+    'C07': dict(
+        technique='Coq proof by induction over arbitrary proposal/decision histories about an executable Gallina model of the chain bookkeeping (three-phase invariant), tied by vm_compute correspondence on whole iterations of the real algorithm objects; stationarity from detailed balance as a theorem',
+        text='Theorems in coq/Props/C07.v (axiom-free except the stationarity statement over R): for every learning length, window, chain length, '
+             'start and list of (proposal, accept/reject) pairs the model of iterate/_add/_add_new/_add_old/first-sample/termination records '
+             'nothing during learning, afterwards holds exactly tried+1 entries (first state twice), last entry = current state, '
+             '0 <= accepted <= tried, each step adds one entry and counts the acceptance, every entry is the start or a proposal with its own '
+             'likelihood, the double-couple counter equals the number of double-couple entries, a constrained chain holds only double-couples, '
+             'the run ends exactly when tried reaches the chain length; detailed balance implies stationarity on any finite state space.',
+        note='accept/reject decisions are model inputs (their probabilities are C05); "samples the posterior" = C05 + stationarity theorem + assumed '
+             'ergodicity and generator law (statistical comparison not run in the quick tier); model hand-written, tied on bounded-exhaustive '
+             'decision strings and random histories through the four chain classes with random and grid initialisation and zero-likelihood '
+             'proposals; multiple-try batches are not generated on the pure-Python path.',
+        design='6 C07'),
 }
 
 NA_REASON = 'check not built yet (work in progress; see DESIGN.md section 6)'
